@@ -324,7 +324,7 @@ namespace chaiscript {
         params.reserve(this->children[1]->children.size());
         for (const auto &child : this->children[1]->children) {
           params.push_back(child->eval(t_ss));
-          if (child->identifier == AST_Node_Type::Id) {
+          if (child->identifier == AST_Node_Type::Id && params.back().is_return_value()) {
             // a value passed on by name is no temporary for the callee, even if the caller received it as one
             params.back().reset_return_value();
           }
@@ -620,7 +620,7 @@ namespace chaiscript {
           has_function_params = true;
           for (const auto &child : this->children[1]->children[1]->children) {
             params.push_back(child->eval(t_ss));
-            if (child->identifier == AST_Node_Type::Id) {
+            if (child->identifier == AST_Node_Type::Id && params.back().is_return_value()) {
               // a value passed on by name is no temporary for the callee, even if the caller received it as one
               params.back().reset_return_value();
             }
@@ -678,7 +678,9 @@ namespace chaiscript {
           for (const auto &capture : this->children[0]->children) {
             auto captured = named_captures.insert(std::make_pair(capture->children[0]->text, capture->children[0]->eval(t_ss))).first;
             // like a value passed on by name, a captured value is no temporary inside the lambda
-            captured->second.reset_return_value();
+            if (captured->second.is_return_value()) {
+              captured->second.reset_return_value();
+            }
           }
           return named_captures;
         }();
